@@ -163,7 +163,7 @@ contract(A + "__should_stop__", params=dict(current_error="float"), returns="boo
          ensures=[("stops-exactly-when-a-criterion-holds",
                    "result == Stop(self, self._current_cycle, self._errors)"),
                   ("pure", "heap_unchanged()")],
-         properties=["C04"])
+         properties=["C04", "C08"])
 
 contract(A + "__error_check__", returns="tuple[float, float, bool]",
          requires=VALID_CFG + ["self._current_cycle >= 1", "len(self._population) >= 1"] + book("(self._current_cycle - 1)"),
@@ -176,7 +176,7 @@ contract(A + "__error_check__", returns="tuple[float, float, bool]",
                   ("stop-decision", "result[2] == Stop(self, k, E0)"),
                   ] + [("book-" + str(i), b) for i, b in enumerate(book("k"))] + [
                   ("pure", "heap_unchanged()")],
-         properties=["C04"])
+         properties=["C04", "C08"])
 
 # ---- hooks (abstract contracts; every optimizer class has to refine them - EFF / LEN / BND obligations) -----------------------
 # PopOK(self): every agent of the population is a valid agent of this run's task and the size clause of C10 holds.
